@@ -199,6 +199,10 @@ func (act *activation) call(a *alt, ins ssa.Instruction, c *ssa.CallCommon, defe
 
 	if !inline {
 		pure := fn != nil && isPureExternal(key) || c.IsInvoke() && isPureExternal(strings.TrimPrefix(key, "iface:"))
+		// in-scope helpers that are kept opaque but are functions of their arguments
+		if key == "core/02-client/types.ParseChainID" || key == "core/02-client/types.GetSelfHeight" {
+			pure = true
+		}
 		// a pointer to a tracked local handed to an opaque callee is shown as a
 		// reference to the value it holds at this moment (e.g. Marshal(&x))
 		targs := args
@@ -225,18 +229,19 @@ func (act *activation) call(a *alt, ins ssa.Instruction, c *ssa.CallCommon, defe
 			a.impure = true
 			a.atoms = a.atoms.Add(ct)
 			// arguments that point to tracked cells escape; escaped cells are clobbered
+			// a local whose address is handed to this opaque callee may be
+			// rewritten by it. (A callee retaining the pointer for a later call to
+			// write through is not modelled: assumption, see DESIGN.)
+			readOnly := strings.Contains(key, "Marshal") && !strings.Contains(key, "Unmarshal") // encoders do not write their argument
 			for _, x := range args {
+				if readOnly {
+					break
+				}
 				act.forAddrs(x, func(cid int32) {
-					if cv, ok := a.cells[cid]; ok {
-						cv.escaped = true
-						a.cells[cid] = cv
+					if _, ok := a.cells[cid]; ok {
+						a.cells[cid] = cellVal{val: T.MkSite(fmt.Sprintf("esc#%d", cid), site), escaped: true}
 					}
 				})
-			}
-			for cid, cv := range a.cells {
-				if cv.escaped {
-					a.cells[cid] = cellVal{val: T.MkSite(fmt.Sprintf("esc#%d", cid), site), escaped: true}
-				}
 			}
 		}
 		if resultVal != nil {
@@ -329,7 +334,7 @@ func (act *activation) call(a *alt, ins ssa.Instruction, c *ssa.CallCommon, defe
 				} else {
 					vals[j] = structured
 				}
-			case !disagree[j] && (!T.Opaque(rt) || e.opaqueWithin(rt, args, fvs, a.cells)):
+			case !disagree[j] && (!T.Opaque(rt) || e.opaqueWithin(rt, args, fvs, a.cells) || e.freshCellPointer(rt, r)):
 				// expressible in the caller's vocabulary (store reads keep their
 				// key): transparent, so facts are anchored on keys, not helper names
 				vals[j] = rt
@@ -416,6 +421,22 @@ func (e *Engine) opaqueWithin(t term.ID, args, fvs []term.ID, cells map[int32]ce
 		}
 	}
 	return true
+}
+
+// freshCellPointer: the callee returns a pointer to a cell it allocated
+// (&T{...}); the cell travels with the returned state, so the pointer itself
+// is a usable name in the caller.
+func (e *Engine) freshCellPointer(rt term.ID, r *ret) bool {
+	op := e.T.Op(rt)
+	if !strings.HasPrefix(op, "addr#") {
+		return false
+	}
+	n, err := strconv.Atoi(op[5:])
+	if err != nil {
+		return false
+	}
+	_, ok := r.cells[int32(n)]
+	return ok
 }
 
 func (act *activation) builtin(a *alt, ins ssa.Instruction, b *ssa.Builtin, args []term.ID, resultVal ssa.Value, site int32) []*alt {
